@@ -1,11 +1,14 @@
 """C14 -- every run ends with the documented exit code under any failure pattern.
 
 Correspondence: real `Plan`s with one optimizer step (driven by a scripted optimizer plug-in that issues
-F / G / FG requests, single vectors or batches, through the OptimizerCallback) or one evaluator step,
-and a fault-injecting evaluator (NaN masks per (vector, realization) and per (realization, perturbation),
-raising OptimizationAborted(USER_ABORT), raising ValueError).  The outcome (exit code or exception
-class), the delivered results (kind, functions/gradients present, all realizations failed) and the
-event list are compared exactly with Model/Step.v inside Coq.
+F / G / FG requests, single vectors or batches, through the OptimizerCallback), optionally with nested
+optimizations to depth 3, optionally run through `BasicOptimizer`, or one evaluator step, and a
+fault-injecting evaluator (NaN masks per (vector, realization) and per (realization, perturbation), placed in
+the first objective, the second objective, the constraint or everywhere; raising
+OptimizationAborted(USER_ABORT); raising an exception of a class chosen by the case).  The outcome (exit code
+or exception class), the delivered results (kind, functions/gradients present, all realizations failed), the
+event list, the number of evaluator calls and the Plan.aborted flags of every plan level are compared exactly
+with Model/Step.v inside Coq; the property's clauses are also evaluated directly on the observation.
 """
 from __future__ import annotations
 
@@ -28,22 +31,33 @@ ALLOWED_AXIOMS: list[str] = []
 RULE = ("structured enumeration + seeded sampling of scripted runs: request scripts of length <= 3 over {F, G, FG, F-batch-2} at "
         "two points, one faulty evaluation (every index) with every failing (vector, realization) / (realization, perturbation) "
         "subset for R,P <= 2 (thorough: exhaustive; quick: all subsets for the single-evaluation scripts + a seeded sample of the "
-        "rest), evaluator exceptions and evaluator-raised aborts, both step kinds, no filter / sort-objective / sort-constraint / "
+        "rest), evaluator exceptions (ten classes incl. BaseException subclasses and ropt's own PlanAborted / ConfigError) and "
+        "evaluator-raised aborts, both step kinds and BasicOptimizer, no filter / sort-objective / sort-constraint / "
         "cvar-objective / cvar-constraint, mean / stddev, no / variable / objective / constraint / all transforms, "
         "realization_min_success 0..R, perturbation_min_success 1..P, allow_nan on/off, max_functions None and every value up to "
-        "the run length + 1; plus a random stream with R,P <= 3 and several faulty evaluations.  Non-trivial = the run contains at "
-        "least one fault (NaN, exception, abort) or is stopped by the budget; distinct = distinct case dictionaries.")
+        "the run length + 1 with batches of 1-3 vectors, one or two objectives with the NaN of a failed row placed in the first "
+        "objective only / the second only / the constraint only / everywhere, equal or unequal positive realization weights, "
+        "metadata and explicit start vectors, the same step object run twice; a stream of gradient evaluations whose realizations "
+        "all fall below perturbation_min_success with realization_min_success = 0; nested optimizations of depth 2 (random) and "
+        "depth 3 (every leaf position x {abort, exception, all-failed, too-few} x tracker empty / holding a result); plus a random "
+        "stream with R,P <= 3 and several faulty evaluations.  Non-trivial = the run contains at least one fault (NaN, exception, "
+        "abort) or is stopped by the budget; distinct = distinct case dictionaries.")
 ASSUMPTIONS = [
     "the optimizer back-end is a script of requests (kind, point, batch); real back-ends (SciPy) are covered by C07/C08",
     "the evaluator is deterministic given (call index, row): NaN masks, exceptions and aborts come from the fault script only",
-    "realization weights are positive and equal; a realization filter, when configured, applies to the objective and the constraint",
+    "realization weights are positive or zero (at least one positive); a realization filter, when configured, applies to every "
+    "objective and the constraint",
     "filters rank realizations by a fixed per-realization offset (the `order` of the case), far larger than any perturbation effect",
     "CVaR percentiles are dyadic (1/4, 1/2, 3/4, 1) and R <= 4 so that int(p*n) and p - n_var/n are exact in floating point",
+    "requests that trigger a nested run are single-vector F / FG requests; nested runs use no transforms, filters or stddev "
+    "(known findings C11:explicit-step-variables, C14:abort-inside-calculate)",
 ]
 TRUSTED = [
     "the scripted optimizer plug-in, fault-injecting evaluator and recording observer of harness/props/C14.py",
-    "transforms (variable / objective / constraint scalers) are exercised by the real code only; the model is transform-free "
+    "transforms (variable / objective / constraint scalers), the number of objectives, the position of the NaN inside a failed row, "
+    "the realization weights, metadata and explicit start vectors are exercised by the real code only; the model does not have them "
     "(the compared facts - outcome, results delivered, events - must not depend on them)",
+    "the BasicOptimizer runs register the scripted optimizer with the plug-in manager of the object's private OptimizerContext",
 ]
 
 KINDS = ("F", "G", "FG")
@@ -53,6 +67,9 @@ KINDS = ("F", "G", "FG")
 # real-code driver
 # ---------------------------------------------------------------------------------------------
 _ENV = None
+# classes of the exception the evaluator raises on a "raise" fault (the case's "excls"; default ValueError)
+EXC_CLASSES = ["ValueError", "RuntimeError", "KeyboardInterrupt", "AssertionError", "ZeroDivisionError", "UnboundLocalError",
+               "TypeError", "Boom", "PlanAborted", "ConfigError", "SystemExit"]
 
 
 def _env():
@@ -66,7 +83,7 @@ def _env():
     from ropt.transforms.base import NonLinearConstraintTransform, ObjectiveTransform
 
     class Scripted(Optimizer):
-        queue: list = []         # one specification per optimizer instance, in order of creation
+        queue: list = []         # specification of the optimizer instance created next
         evaluator = None         # the fault-injecting evaluator of the current run
 
         def __init__(self, config, cb):
@@ -78,7 +95,7 @@ def _env():
             ev = Scripted.evaluator
             saved = (ev.pending, ev.pcase)         # a nested run must not disturb the pending outer request
             try:
-                for req in self.spec["script"]:
+                for i, req in enumerate(self.spec["script"]):
                     def point(p):
                         x = np.zeros(nvar)
                         x[0] = 0.25 * p
@@ -87,9 +104,19 @@ def _env():
                         x = np.vstack([point(req["pt"] + i) for i in range(req["batch"])])
                     else:
                         x = point(req["pt"])
-                    # each request leads to exactly one evaluator call: announce its fault
+                    # each request leads to exactly one evaluator call: announce its fault.  A nested run started by this
+                    # request saves and restores the announcement; its specification is handed to the optimizer that the
+                    # nested step creates next (and taken back when the budget check stops this request before that).
                     ev.pending, ev.pcase = req.get("fault"), self.spec["case14"]
-                    self.cb(x, return_functions=req["kind"] in ("F", "FG"), return_gradients=req["kind"] in ("G", "FG"))
+                    subs = self.spec.get("subs")
+                    child = subs[i] if subs else None
+                    if child is not None:
+                        Scripted.queue.insert(0, child)
+                    try:
+                        self.cb(x, return_functions=req["kind"] in ("F", "FG"), return_gradients=req["kind"] in ("G", "FG"))
+                    finally:
+                        if child is not None:
+                            Scripted.queue[:] = [q for q in Scripted.queue if q is not child]
             finally:
                 ev.pending, ev.pcase = saved
 
@@ -134,11 +161,25 @@ def _env():
         def nonlinear_constraint_diffs_from_optimizer(self, lower_diffs, upper_diffs):
             return lower_diffs * self.s, upper_diffs * self.s
 
-    _ENV = {"ropt": ropt, "Scripted": Scripted, "ScriptedPlugin": ScriptedPlugin, "ObjScaler": ObjScaler, "ConScaler": ConScaler}
+    class Boom(Exception):
+        pass
+
+    _ENV = {"ropt": ropt, "Scripted": Scripted, "ScriptedPlugin": ScriptedPlugin, "ObjScaler": ObjScaler, "ConScaler": ConScaler,
+            "Boom": Boom}
     return _ENV
 
 
-def make_transforms(name):
+def _exception(name):
+    import builtins
+    import ropt.exceptions as rex
+    if name == "Boom":
+        return _env()["Boom"]("injected evaluator failure")
+    if hasattr(rex, name):
+        return getattr(rex, name)("injected evaluator failure")
+    return getattr(builtins, name)("injected evaluator failure")
+
+
+def make_transforms(name, nobj=1):
     import numpy as np
     from ropt.transforms import OptModelTransforms, VariableScaler
     env = _env()
@@ -148,7 +189,7 @@ def make_transforms(name):
     if name in ("variables", "all"):
         kw["variables"] = VariableScaler(np.array([2.0, 4.0]), np.array([0.5, -0.25]))
     if name in ("objectives", "all"):
-        kw["objectives"] = env["ObjScaler"](np.array([2.0]))
+        kw["objectives"] = env["ObjScaler"](np.array([2.0, 4.0][:nobj]))
     if name in ("constraints", "all"):
         kw["nonlinear_constraints"] = env["ConScaler"](np.array([4.0]))
     return OptModelTransforms(**kw)
@@ -156,11 +197,12 @@ def make_transforms(name):
 
 def make_config(case, maxf="case"):
     R, P = case["R"], case["P"]
+    nobj = case.get("nobj", 1)
     cfg = {
         "variables": {"initial_values": [0.0, 0.0]},
-        "objectives": {"weights": [1.0]},
+        "objectives": {"weights": [1.0, 0.5][:nobj]},
         "nonlinear_constraints": {"lower_bounds": [-float("inf")], "upper_bounds": [1000.0]},
-        "realizations": {"weights": [1.0] * R, "realization_min_success": case["rmin"]},
+        "realizations": {"weights": list(case.get("weights") or [1.0] * R), "realization_min_success": case["rmin"]},
         "gradient": {"number_of_perturbations": P, "perturbation_min_success": case["pmin"]},
         "optimizer": {"method": "verifscript/run"},
     }
@@ -179,7 +221,7 @@ def make_config(case, maxf="case"):
         else:
             opts = {"sort": [0] if f[0] == "cvar-objective" else 0, "percentile": f[1]}
         cfg["realization_filters"] = [{"method": f[0], "options": opts}]
-        cfg["objectives"]["realization_filters"] = [0]
+        cfg["objectives"]["realization_filters"] = [0] * nobj
         cfg["nonlinear_constraints"]["realization_filters"] = [0]
     if case.get("estimator", "mean") == "stddev":
         cfg["function_estimators"] = [{"method": "stddev"}]
@@ -187,14 +229,18 @@ def make_config(case, maxf="case"):
 
 
 class FaultEvaluator:
-    """Deterministic evaluator: objective = |x - 0.5|^2 + 10 * rank offset of the realization; the
-    constraint equals the objective; the pending fault (announced by the scripted optimizer / the
-    driver just before the request) decides NaNs / exceptions."""
+    """Deterministic evaluator: objective = |x - 0.5|^2 + 10 * rank offset of the realization (a second objective, when
+    configured, is the same value + 1); the constraint equals the objective; the pending fault (announced by the scripted
+    optimizer / the driver just before the request) decides NaNs / exceptions.  `nanloc` of the configuration says where
+    the NaN of a failed row is put: everywhere, first objective only, second objective only, constraint only.
+    Records, per call, what it actually returned: failed function rows per vector and successful perturbations per
+    realization (the oracle judges the delivered results against this record, not against the script)."""
 
     def __init__(self):
         self.pending = None      # fault of the next call
         self.pcase = None        # C14-style configuration of the step that issues the call
         self.calls = 0
+        self.record = []         # per call: {"f": [[failed flag per realization] per vector], "p": [[ok count] per realization]}
 
     def __call__(self, variables, ctx):
         import numpy as np
@@ -203,34 +249,56 @@ class FaultEvaluator:
         from ropt.exceptions import OptimizationAborted
         self.calls += 1
         f = self.pending
+        pc = self.pcase
         if f is not None and f.get("exc") == "raise":
-            raise ValueError("injected evaluator failure")
+            self.record.append({"exc": "raise"})
+            raise _exception(pc.get("excls") or "ValueError")
         if f is not None and f.get("exc") == "abort":
+            self.record.append({"exc": "abort"})
             raise OptimizationAborted(exit_code=OptimizerExitCode.USER_ABORT)
-        order = self.pcase["order"]
+        order = pc["order"]
+        nobj = pc.get("nobj", 1)
+        nanloc = pc.get("nanloc", "all")
+        R = pc["R"]
         rank = {r: k for k, r in enumerate(order)}
         reals = np.asarray(ctx.realizations)
         perts = None if ctx.perturbations is None else np.asarray(ctx.perturbations)
         n = variables.shape[0]
-        obj = np.zeros((n, 1))
+        obj = np.zeros((n, nobj))
+        con = np.zeros((n, 1))
         seen_f = {}
+        rec = {"f": [], "p": None}
         for row in range(n):
             r = int(reals[row])
-            obj[row, 0] = float(((variables[row] - 0.5) ** 2).sum()) + 10.0 * rank[r]
-            if f is None:
-                continue
+            val = float(((variables[row] - 0.5) ** 2).sum()) + 10.0 * rank[r]
+            obj[row, :] = [val, val + 1.0][:nobj]
+            con[row, 0] = val
             p = -1 if perts is None else int(perts[row])
+            bad = False
             if p < 0:
                 v = seen_f.get(r, 0)
                 seen_f[r] = v + 1
-                fm = f.get("fm") or []
-                if v < len(fm) and fm[v][r]:
-                    obj[row, 0] = np.nan
+                while len(rec["f"]) <= v:
+                    rec["f"].append([False] * R)
+                fm = (f or {}).get("fm") or []
+                bad = v < len(fm) and bool(fm[v][r])
+                rec["f"][v][r] = bad
             else:
-                pm = f.get("pm") or []
-                if r < len(pm) and pm[r][p]:
+                if rec["p"] is None:
+                    rec["p"] = [0] * R
+                pm = (f or {}).get("pm") or []
+                bad = r < len(pm) and bool(pm[r][p])
+                if not bad:
+                    rec["p"][r] += 1
+            if bad:
+                if nanloc in ("all", "obj0"):
                     obj[row, 0] = np.nan
-        return EvaluatorResult(objectives=obj, constraints=obj.copy())
+                if nanloc == "all" or (nanloc == "obj1" and nobj > 1):
+                    obj[row, nobj - 1] = np.nan
+                if nanloc in ("all", "con") or (nanloc == "obj1" and nobj == 1):
+                    con[row, 0] = np.nan
+        self.record.append(rec)
+        return EvaluatorResult(objectives=obj, constraints=con)
 
 
 def _res_tuple(item):
@@ -242,27 +310,56 @@ def _res_tuple(item):
     return ["G", item.gradients is not None, allf]
 
 
-def inner_case(case):
-    """C14-style configuration of the nested runs: the outer configuration with its own budget and threshold."""
-    n = case["nested"]
-    return {**case, "maxf": n.get("maxf"), "rmin": n.get("rmin", case["rmin"]), "nested": None, "step": "optimizer"}
+# ---- the run tree -----------------------------------------------------------------------------------
+def root(case):
+    """The run tree of an optimizer-step case: node = {"cfg": C14-style configuration, "script": requests,
+    "subs": per request the node of the nested run it triggers (None: no nested optimization)}.
+    case["tree"] = {"rmin", "maxf", "script", "subs"} nodes for the levels below the root; the older
+    case["nested"] = {"scripts", "maxf", "rmin"} is one nested level."""
+    def node(spec, script):
+        cfg = {**case, "rmin": spec.get("rmin", case["rmin"]), "maxf": spec.get("maxf"), "nested": None, "tree": None,
+               "step": "optimizer", "script": script}
+        subs = spec.get("subs") or [None] * len(script)
+        return {"cfg": cfg, "script": script, "subs": [None if x is None else node(x, x["script"]) for x in subs]}
+    if case.get("tree"):
+        subs = [None if x is None else node(x, x["script"]) for x in case["tree"]]
+    elif case.get("nested"):
+        n = case["nested"]
+        subs = [node({"rmin": n.get("rmin", case["rmin"]), "maxf": n.get("maxf")}, sc) for sc in n["scripts"]]
+    else:
+        subs = [None] * len(case["script"])
+    return {"cfg": case, "script": case["script"], "subs": subs}
+
+
+def is_nested(case):
+    return bool(case.get("tree") or case.get("nested"))
+
+
+def depth(node):
+    return max([0] + [1 + depth(x) for x in node["subs"] if x is not None])
+
+
+def spec_of(node, allow_nan):
+    """Specification of one scripted optimizer run (and, per request, of the nested run it triggers)."""
+    return {"script": node["script"], "allow_nan": allow_nan, "case14": node["cfg"], "config": make_config(node["cfg"]),
+            "nested": any(x is not None for x in node["subs"]),
+            "subs": [None if x is None else spec_of(x, allow_nan) for x in node["subs"]]}
 
 
 def run_impl(case):
     import warnings
     warnings.simplefilter("ignore")
     from ropt.enums import EventType
-    from ropt.plan import OptimizerContext, Plan
+    from ropt.plan import BasicOptimizer, OptimizerContext, Plan
     from ropt.plugins import PluginManager
     env = _env()
     Scripted = env["Scripted"]
-    pm = PluginManager()
-    pm.add_plugin("optimizer", "verifscript", env["ScriptedPlugin"]())
     script = case["script"]
     evaluator = FaultEvaluator()
     Scripted.evaluator = evaluator
-    ctx = OptimizerContext(evaluator=evaluator, plugin_manager=pm)
-    delivered, events, shapes_ok = [], [], [True]
+    delivered, groups, events, shapes_ok, meta_ok = [], [], [], [True], [True]
+    nobj = case.get("nobj", 1)
+    metadata = {"tag": 7, "who": ["verif"]} if case.get("metadata") else None
 
     def on_results(e):
         res = e.data["results"]
@@ -270,51 +367,111 @@ def run_impl(case):
             tr = e.data.get("transformed_results")
             if tr is None or len(tr) != len(res):
                 shapes_ok[0] = False
+        if metadata is not None and e.source == top_step[0]:
+            for r in res:
+                if r.metadata != metadata or r.metadata is metadata:
+                    meta_ok[0] = False
         delivered.extend(_res_tuple(r) for r in res)
+        groups.append(len(res))
 
-    ctx.add_observer(EventType.FINISHED_EVALUATION, on_results)
-    for et in EventType:
-        ctx.add_observer(et, lambda e: events.append(int(e.event_type.value)))
-    plan = Plan(ctx)
-    transforms = make_transforms(case["transform"])
+    def on_event(e):
+        events.append(int(e.event_type.value))
+
+    top_step = [None]
+    transforms = make_transforms(case["transform"], nobj)
     cfg = make_config(case)
-    inner = None
+    start = [0.25, 0.0] if case.get("explicit") else None
+    plans = []
+    second = None
     try:
-        if case["step"] == "optimizer":
+        if case["step"] == "basic":
             Scripted.queue[:] = [{"script": script, "allow_nan": case["allow_nan"], "case14": case}]
-            st = plan.add_step("optimizer")
-            kw = {}
-            if case.get("nested") is not None:
-                ic = inner_case(case)
-                icfg = make_config(ic)
-                for sc in case["nested"]["scripts"]:
-                    Scripted.queue.append({"script": sc, "allow_nan": case["allow_nan"], "case14": ic})
-                inner = Plan(ctx)
-                ist = inner.add_step("optimizer")
-                itr = inner.add_handler("tracker", sources={ist})
-
-                def f(p, variables):
-                    p.run_step(ist, config=icfg, variables=variables)
-                    return p.get(itr, "results")
-
-                inner.add_function(f)
-                kw["nested_optimization"] = inner
-            code = plan.run_step(st, config=cfg, transforms=transforms, **kw)
+            opt = BasicOptimizer(cfg, evaluator, transforms=transforms)
+            octx = opt._optimizer_context
+            octx.plugin_manager.add_plugin("optimizer", "verifscript", env["ScriptedPlugin"]())
+            for et in EventType:
+                octx.add_observer(et, on_event)
+            opt.set_results_callback(lambda res: None)
+            octx.add_observer(EventType.FINISHED_EVALUATION, on_results)
+            opt.run()
+            code = opt.exit_code
+            basic = {"has_results": opt.results is not None,
+                     "variables_ok": (opt.variables is None) == (opt.results is None)}
+            outcome = ["exit", int(code.value)]
         else:
-            req = script[0]
-            st = plan.add_step("evaluator")
-            if req["batch"] > 0:
-                variables = [[0.25 * (req["pt"] + i), 0.0] for i in range(req["batch"])]
+            pm = PluginManager()
+            pm.add_plugin("optimizer", "verifscript", env["ScriptedPlugin"]())
+            ctx = OptimizerContext(evaluator=evaluator, plugin_manager=pm)
+            ctx.add_observer(EventType.FINISHED_EVALUATION, on_results)
+            for et in EventType:
+                ctx.add_observer(et, on_event)
+            plan = Plan(ctx)
+            plans.append(plan)
+            basic = None
+            if case["step"] == "optimizer":
+                tree = root(case)
+                Scripted.queue[:] = [spec_of(tree, case["allow_nan"])]
+                st = plan.add_step("optimizer")
+                top_step[0] = st
+                kw = {}
+                D = depth(tree)
+                steps, trackers = {}, {}
+                for j in range(1, D + 1):
+                    pj = Plan(ctx)
+                    plans.append(pj)
+                    steps[j] = pj.add_step("optimizer")
+                    trackers[j] = pj.add_handler("tracker", sources={steps[j]})
+
+                    def f(p, variables, j=j):
+                        spec = Scripted.queue[0]          # the optimizer created next is the one of this nested run
+                        kw2 = {"nested_optimization": plans[j + 1]} if spec["nested"] else {}
+                        p.run_step(steps[j], config=spec["config"], variables=variables, **kw2)
+                        return p.get(trackers[j], "results")
+
+                    pj.add_function(f)
+                if D > 0:
+                    kw["nested_optimization"] = plans[1]
+                if start is not None:
+                    kw["variables"] = start
+                if metadata is not None:
+                    kw["metadata"] = metadata
+                code = plan.run_step(st, config=cfg, transforms=transforms, **kw)
+                if case.get("repeat") and not plan.aborted:
+                    first = {"delivered": list(delivered), "events": list(events), "code": int(code.value)}
+                    del delivered[:], groups[:], events[:]
+                    calls1 = evaluator.calls
+                    Scripted.queue[:] = [spec_of(tree, case["allow_nan"])]
+                    code2 = plan.run_step(st, config=cfg, transforms=transforms, **kw)
+                    second = {"same": first == {"delivered": list(delivered), "events": list(events), "code": int(code2.value)}}
+                    evaluator.calls -= calls1
+                    evaluator.record = evaluator.record[calls1:]
             else:
-                variables = [0.25 * req["pt"], 0.0]
-            evaluator.pending, evaluator.pcase = req.get("fault"), case
-            code = plan.run_step(st, config=cfg, transforms=transforms, variables=variables)
-        outcome = ["exit", int(code.value)]
+                req = script[0]
+                st = plan.add_step("evaluator")
+                top_step[0] = st
+                if req["batch"] > 0:
+                    variables = [[0.25 * (req["pt"] + i), 0.0] for i in range(req["batch"])]
+                else:
+                    variables = [0.25 * req["pt"], 0.0]
+                kw = {"metadata": metadata} if metadata is not None else {}
+                evaluator.pending, evaluator.pcase = req.get("fault"), case
+                code = plan.run_step(st, config=cfg, transforms=transforms, variables=variables, **kw)
+                if case.get("repeat") and not plan.aborted:
+                    first = {"delivered": list(delivered), "events": list(events), "code": int(code.value)}
+                    del delivered[:], groups[:], events[:]
+                    calls1 = evaluator.calls
+                    evaluator.pending, evaluator.pcase = req.get("fault"), case
+                    code2 = plan.run_step(st, config=cfg, transforms=transforms, variables=variables, **kw)
+                    second = {"same": first == {"delivered": list(delivered), "events": list(events), "code": int(code2.value)}}
+                    evaluator.calls -= calls1
+                    evaluator.record = evaluator.record[calls1:]
+            outcome = ["exit", int(code.value)]
     except BaseException as e:  # noqa: BLE001 - the class is the observation
         outcome = ["exc", type(e).__name__]
-    return {"outcome": outcome, "delivered": delivered, "events": events, "calls": evaluator.calls,
-            "aborted": bool(plan.aborted), "inner_aborted": bool(inner.aborted) if inner is not None else False,
-            "transformed_ok": shapes_ok[0]}
+        basic = None if case["step"] != "basic" else {"has_results": None, "variables_ok": True}
+    return {"outcome": outcome, "delivered": delivered, "groups": groups, "events": events, "calls": evaluator.calls,
+            "aborted": [bool(p.aborted) for p in plans], "transformed_ok": shapes_ok[0], "metadata_ok": meta_ok[0],
+            "record": evaluator.record, "second": second, "basic": basic}
 
 
 # ---------------------------------------------------------------------------------------------
@@ -331,7 +488,7 @@ def _selected(case, failed):
         return None
     ranked = [r for r in case["order"] if not failed[r]]
     if f[0].startswith("sort"):
-        return set(ranked[f[1]: f[2] + 1])
+        return {r for r in ranked[f[1]: f[2] + 1] if _wpos(case, r)}      # the selected keep their configured weight
     ranked = ranked[::-1]
     n = len(ranked)
     if n == 0:
@@ -345,8 +502,13 @@ def _selected(case, failed):
     return sel
 
 
+def _wpos(case, r):
+    w = case.get("weights")
+    return w is None or w[r] > 0
+
+
 def _nz(case, sel, failed):
-    act = [r for r in range(case["R"]) if not failed[r] and (sel is None or r in sel)]
+    act = [r for r in range(case["R"]) if not failed[r] and (_wpos(case, r) if sel is None else r in sel)]
     return len(act) if act else case["R"]
 
 
@@ -414,84 +576,105 @@ def _eval_req(case, req, cache):
     return "results", [["F", fp[1], fp[2]], ["G", gp[1], gp[2]]], (1 if kind == "FG" else 0), None
 
 
+def _excls(case):
+    return case.get("excls") or "ValueError"
+
+
 def expected(case):
     """Property-satisfying behaviour: first terminating condition decides; results of a too-few evaluation are delivered."""
-    delivered, info = [], {"decider": None, "inside_results": None, "stop_index": None}
+    info = {"decider": None, "inside_results": None, "stop_index": None}
     if case["step"] == "evaluator":
         events = [EV["SES"], EV["SE"]]
         tag, payload, _, _ = _eval_req(case, case["script"][0], None)
         info["stop_index"] = 0
         if tag == "raise":
             info["decider"] = "raise"
-            return {"outcome": ["exc", "ValueError"], "delivered": [], "events": events}, info
+            return {"outcome": ["exc", _excls(case)], "delivered": [], "events": events, "aborted": [False]}, info
         if tag == "abort":
             info["decider"] = "abort"
-            return {"outcome": ["exit", EXIT["USER_ABORT"]], "delivered": [], "events": events + [EV["FES"]]}, info
+            return {"outcome": ["exit", EXIT["USER_ABORT"]], "delivered": [], "events": events + [EV["FES"]], "aborted": [True]}, info
         if tag == "inside":
             info["decider"], info["inside_results"] = payload
-            return {"outcome": ["exit", EXIT["TOO_FEW"]], "delivered": payload[1], "events": events + [EV["FE"], EV["FES"]]}, info
+            return {"outcome": ["exit", EXIT["TOO_FEW"]], "delivered": payload[1], "events": events + [EV["FE"], EV["FES"]],
+                    "aborted": [False]}, info
         few = any(not r[1] for r in payload)
         info["decider"] = "threshold" if few else None
         return {"outcome": ["exit", EXIT["TOO_FEW"] if few else EXIT["EVAL_FINISHED"]], "delivered": payload,
-                "events": events + [EV["FE"], EV["FES"]]}, info
-    return _expected_optimizer(case, info)
+                "events": events + [EV["FE"], EV["FES"]], "aborted": [False]}, info
+    tree = root(case)
+    D = depth(tree)
+    state = {"has": [False] * (D + 1), "aborted": [False] * (D + 1)}
+    exp = _expected_run(tree, 0, state, info)
+    exp["aborted"] = state["aborted"]
+    return exp, info
 
 
-def _expected_optimizer(case, info, top=True):
-    """Optimizer step (top = the step of the case; otherwise one nested run)."""
-    delivered = []
-    events = [EV["SO"]]
+def _expected_run(node, lvl, state, info):
+    """One run of the optimizer step of plan level lvl (0 = the step of the case)."""
+    case = node["cfg"]
+    top = lvl == 0
+    delivered, events = [], [EV["SO"]]
     completed, cache, out = 0, None, None
     check_failures = case["rmin"] < 1 and not case["allow_nan"]
-    nested = case.get("nested") if top else None
-    has = False
-    for i, req in enumerate(case["script"]):
+
+    def stop(code, decider, i):
+        if top:
+            info["decider"], info["stop_index"] = decider, i
+        return code
+
+    for i, req in enumerate(node["script"]):
         if case.get("maxf") is not None and completed >= case["maxf"]:
-            out, info["decider"], info["stop_index"] = EXIT["MAX_FUNCTIONS"], "budget", i
+            out = stop(EXIT["MAX_FUNCTIONS"], "budget", i)
             break
-        if nested is not None:
-            # the nested plan runs before the outer evaluation; its tracker keeps the best trackable result
-            iinfo = {"decider": None, "inside_results": None, "stop_index": None}
-            iexp, iinfo = _expected_optimizer({**inner_case(case), "script": nested["scripts"][i]}, iinfo, top=False)
+        sub = node["subs"][i]
+        if sub is not None:
+            # the nested plan runs before the evaluation; its tracker keeps the best trackable result of ITS step
+            iexp = _expected_run(sub, lvl + 1, state, info)
             delivered = delivered + iexp["delivered"]
             events = events + iexp["events"]
-            has = has or any(r[0] == "F" and r[1] and not r[2] for r in iexp["delivered"])
-            if iinfo["decider"] in ("filter", "estimator"):
-                info["nested_inside"] = True
             if iexp["outcome"][0] == "exc":
-                info["decider"], info["stop_index"] = "raise", i
-                return {"outcome": iexp["outcome"], "delivered": delivered, "events": events}, info
+                if top:
+                    info["decider"], info["stop_index"] = "raise", i
+                return {"outcome": iexp["outcome"], "delivered": delivered, "events": events}
             if iexp["outcome"][1] == EXIT["USER_ABORT"]:
-                out, info["decider"], info["stop_index"] = EXIT["USER_ABORT"], "abort", i
+                out = stop(EXIT["USER_ABORT"], "abort", i)
                 break
-            if not has:
-                out, info["decider"], info["stop_index"] = EXIT["NESTED_FAILED"], "nested-no-result", i
+            if not state["has"][lvl + 1]:
+                out = stop(EXIT["NESTED_FAILED"], "nested-no-result", i)
                 break
         events.append(EV["SE"])
         tag, payload, counted, cache = _eval_req(case, req, cache)
         if tag == "raise":
-            info["decider"], info["stop_index"] = "raise", i
-            return {"outcome": ["exc", "ValueError"], "delivered": delivered, "events": events}, info
+            if top:
+                info["decider"], info["stop_index"] = "raise", i
+            return {"outcome": ["exc", _excls(case)], "delivered": delivered, "events": events}
         if tag == "abort":
-            out, info["decider"], info["stop_index"] = EXIT["USER_ABORT"], "abort", i
+            out = stop(EXIT["USER_ABORT"], "abort", i)
             break
         if tag == "inside":
-            info["decider"], info["inside_results"] = payload
-            info["stop_index"] = i
+            if top:
+                info["decider"], info["inside_results"] = payload
+                info["stop_index"] = i
+            else:
+                info["nested_inside"] = True
             delivered = delivered + payload[1]
             events.append(EV["FE"])
             out = EXIT["TOO_FEW"]
             break
         delivered = delivered + payload
         events.append(EV["FE"])
+        if any(r[0] == "F" and r[1] and not r[2] for r in payload):
+            state["has"][lvl] = True
         if any((not r[1]) or (check_failures and r[2]) for r in payload):
-            out, info["decider"], info["stop_index"] = EXIT["TOO_FEW"], "threshold", i
+            out = stop(EXIT["TOO_FEW"], "threshold", i)
             break
         completed += counted
     if out is None:
         out = EXIT["OPT_FINISHED"]
+    if out == EXIT["USER_ABORT"]:
+        state["aborted"][lvl] = True
     events.append(EV["FO"])
-    return {"outcome": ["exit", out], "delivered": delivered, "events": events}, info
+    return {"outcome": ["exit", out], "delivered": delivered, "events": events}
 
 
 def _cache_respecting(case):
@@ -506,6 +689,65 @@ def _cache_respecting(case):
     return True
 
 
+def _direct(case, obs):
+    """Clauses of the property evaluated on the observation alone (no expected run): evaluator calls, result groups,
+    TOO_FEW exactly when the last evaluation's results say so, flags of every result against what the evaluator returned."""
+    ev, out = obs["events"], obs["outcome"]
+    if obs["calls"] != ev.count(EV["SE"]):
+        return {"clause": "one-evaluator-call-per-evaluation", "detail": {"calls": obs["calls"], "START_EVALUATION": ev.count(EV["SE"])}}
+    if len(obs["groups"]) != ev.count(EV["FE"]) or sum(obs["groups"]) != len(obs["delivered"]):
+        return {"clause": "results-carried-by-FINISHED_EVALUATION", "detail": obs["groups"]}
+    if out[0] == "exit" and out[1] not in EXIT.values():
+        return {"clause": "undocumented-exit-code", "detail": out}
+    if is_nested(case):
+        return None
+    cf = case["step"] != "evaluator" and case["rmin"] < 1 and not case["allow_nan"]
+    gs, i = [], 0
+    for n in obs["groups"]:
+        gs.append(obs["delivered"][i:i + n])
+        i += n
+
+    def bad(r):
+        return (not r[1]) or (cf and r[2])
+    if any(bad(r) for g in gs[:-1] for r in g):
+        return {"clause": "run-continued-after-an-evaluation-with-too-few-realizations", "detail": gs}
+    last_bad = bool(gs) and any(bad(r) for r in gs[-1])
+    _, info = expected(case)
+    if info["decider"] not in ("filter", "estimator"):       # (inside calculate nothing is delivered today: known finding)
+        if (out == ["exit", EXIT["TOO_FEW"]]) != last_bad:
+            return {"clause": "TOO_FEW_REALIZATIONS-exactly-when-the-last-evaluation-had-too-few", "detail": {"outcome": out, "last": gs[-1:]}}
+    # flags of the delivered results against what the evaluator actually returned (threshold semantics; filters and
+    # estimators only remove the functions through an abort, never silently)
+    rec = [r for r in obs.get("record", []) if "exc" not in r]
+    R, rmin, pmin = case["R"], case["rmin"], case["pmin"]
+    gi = 0
+    lastf = None
+    for r in rec:
+        if gi >= len(gs):
+            break
+        g = gs[gi]
+        gi += 1
+        k = 0
+        for fm in r["f"]:
+            if k >= len(g) or g[k][0] != "F":
+                return {"clause": "function-result-missing", "detail": g}
+            ok = fm.count(False)
+            if g[k][2] != (ok == 0) or (g[k][1] != (ok >= rmin) and not (g[k][1] is False and info["decider"] in ("filter", "estimator"))):
+                return {"clause": "result-flags-vs-evaluator-output", "detail": {"result": g[k], "failed": fm, "rmin": rmin}}
+            k += 1
+        if r["p"] is None and r["f"]:
+            lastf = r["f"][0]           # the function result cached for a later gradient-only request: the first vector
+        if r["p"] is not None:
+            if k >= len(g) or g[k][0] != "G":
+                return {"clause": "gradient-result-missing", "detail": g}
+            base = r["f"][0] if r["f"] else lastf
+            fg = [base[x] or r["p"][x] < pmin for x in range(R)]
+            ok = fg.count(False)
+            if g[k][2] != (ok == 0) or (g[k][1] != (ok >= rmin) and not (g[k][1] is False and info["decider"] in ("filter", "estimator"))):
+                return {"clause": "gradient-result-flags-vs-evaluator-output", "detail": {"result": g[k], "failed": fg, "rmin": rmin}}
+    return None
+
+
 def oracle(case, obs):
     exp, info = expected(case)
     out = obs["outcome"]
@@ -516,7 +758,7 @@ def oracle(case, obs):
     if out != exp["outcome"]:
         return {"clause": "exit-code-of-first-terminating-condition", "detail": {"got": out, "expected": exp["outcome"], "decider": info["decider"]}}
     nf = sum(1 for r in obs["delivered"] if r[0] == "F")
-    if case["step"] == "optimizer" and case.get("maxf") is not None and _cache_respecting(case) and not case.get("nested"):
+    if case["step"] != "evaluator" and case.get("maxf") is not None and _cache_respecting(case) and not is_nested(case):
         B = max([1] + [r["batch"] for r in case["script"]])
         if nf > case["maxf"] + B - 1:
             return {"clause": "budget-exceeded", "detail": {"function_results": nf, "max_functions": case["maxf"], "largest_batch": B}}
@@ -526,15 +768,26 @@ def oracle(case, obs):
                                              "decider": info["decider"]}}
     if not obs.get("transformed_ok", True):
         return {"clause": "transformed-results-missing", "detail": None}
-    if obs["aborted"] != (exp["outcome"] == ["exit", EXIT["USER_ABORT"]]):
-        return {"clause": "plan-aborted-flag", "detail": obs["aborted"]}
+    if not obs.get("metadata_ok", True):
+        return {"clause": "metadata-not-copied-into-results", "detail": None}
+    if case["step"] != "basic" and obs["aborted"] != exp["aborted"]:
+        return {"clause": "plan-aborted-flags", "detail": {"got": obs["aborted"], "expected": exp["aborted"]}}
+    d = _direct(case, obs)
+    if d is not None:
+        return d
+    if obs.get("second") is not None and not obs["second"]["same"]:
+        return {"clause": "second-run-of-the-same-step-object-differs", "detail": None}
+    if case["step"] == "basic" and obs.get("basic") and out[0] == "exit":
+        has = any(r[0] == "F" and r[1] and not r[2] for r in obs["delivered"])
+        if obs["basic"]["has_results"] != has or not obs["basic"]["variables_ok"]:
+            return {"clause": "BasicOptimizer-results-vs-delivered-results", "detail": obs["basic"]}
     return None
 
 
 def known_signature(case, obs, violation):
     """C14:abort-inside-calculate -- the too-few decision was taken by a filter or estimator inside
     calculate and the sole discrepancy is the missing delivery of that evaluation's results."""
-    if case.get("nested"):
+    if is_nested(case):
         return None
     exp, info = expected(case)
     if info["decider"] not in ("filter", "estimator"):
@@ -551,8 +804,17 @@ def known_signature(case, obs, violation):
     ev = exp["events"]
     if ev[-1 - tail] != EV["FE"] or obs["events"] != ev[: -1 - tail] + ev[-tail:]:
         return None
-    if obs["aborted"] or not obs.get("transformed_ok", True):
+    if any(obs["aborted"]) or not obs.get("transformed_ok", True) or not obs.get("metadata_ok", True):
         return None
+    # everything else the property says must hold inside the region as well
+    if _direct(case, obs) is not None:
+        return None
+    if obs.get("second") is not None and not obs["second"]["same"]:
+        return None
+    if case["step"] == "basic" and obs.get("basic"):
+        has = any(r[0] == "F" and r[1] and not r[2] for r in obs["delivered"])
+        if obs["basic"]["has_results"] != has or not obs["basic"]["variables_ok"]:
+            return None
     return "C14:abort-inside-calculate"
 
 
@@ -568,6 +830,11 @@ FILTERS_R = {
 }
 TRANSFORMS = ["none", "variables", "objectives", "constraints", "all"]
 REQS = [("F", 0, 0), ("G", 0, 0), ("FG", 0, 0), ("F", 0, 2), ("F", 1, 0), ("G", 1, 0), ("FG", 1, 0)]
+BREQS = [("F", 0, 0), ("G", 0, 0), ("FG", 0, 0), ("F", 0, 2), ("F", 1, 3), ("F", 1, 1)]
+NANLOCS = ["all", "obj0", "obj1", "con"]
+WEIGHTS = {1: [[1.0], [0.25]], 2: [[0.75, 0.25], [0.125, 2.0], [1.0, 0.0], [0.0, 0.5]],
+           3: [[0.5, 0.25, 0.25], [3.0, 1.0, 0.5], [1.0, 0.0, 1.0], [0.0, 0.0, 2.0], [0.5, 0.5, 0.0]],
+           4: [[0.25, 0.5, 1.0, 2.0], [1.0, 0.0, 0.0, 1.0], [0.0, 1.0, 1.0, 1.0]]}
 
 
 def _subsets(n):
@@ -615,6 +882,36 @@ def _run_length(script):
     return n
 
 
+def _dress(case, rng):
+    """Features of the real run the model does not have (the compared facts must not depend on them): number of objectives and
+    the place of the NaN in a failed row, realization weights, the exception class, metadata, an explicit start vector, a second
+    run of the same step object, the BasicOptimizer entry path."""
+    c = dict(case)
+    u = rng.random()
+    if u < 0.45:
+        c["nobj"] = 2
+        c["nanloc"] = rng.choice(NANLOCS)
+    elif u < 0.7:
+        c["nanloc"] = rng.choice(["obj0", "con"])
+    nested = is_nested(c)
+    basic = c["step"] == "optimizer" and not nested and rng.random() < 0.18
+    if rng.random() < 0.4:
+        # a zero weight can turn the estimate of a surviving ensemble into NaN, which the result tracker (C12) rejects:
+        # runs whose outcome depends on a tracker (nested, BasicOptimizer.results) use positive weights
+        c["weights"] = rng.choice([w for w in WEIGHTS[c["R"]] if not (nested or basic) or 0 not in w])
+    c["excls"] = rng.choice(EXC_CLASSES)
+    if basic:
+        c["step"] = "basic"
+        return c
+    if rng.random() < 0.25:
+        c["metadata"] = True
+    if c["step"] == "optimizer" and rng.random() < 0.25:
+        c["explicit"] = True
+    if not nested and rng.random() < 0.15:
+        c["repeat"] = True
+    return c
+
+
 def _structured(tier, rng):
     """Single-fault scripts: every faulty evaluation index x every fault x configuration sample (or all)."""
     thorough = tier == "thorough"
@@ -646,11 +943,11 @@ def _structured(tier, rng):
 
 
 def _budget_sweep(tier, rng):
-    """Fault-free and single-fault scripts x every max_functions value up to the unconstrained run length (+1)."""
+    """Fault-free scripts with batches of 1-3 vectors x every max_functions value up to the unconstrained run length (+1)."""
     maxlen = 4 if tier == "thorough" else 3
     for L in range(1, maxlen + 1):
-        shapes = list(itertools.product(REQS[:4], repeat=L))
-        cap = 40 if tier == "quick" else 160
+        shapes = list(itertools.product(BREQS, repeat=L))
+        cap = 45 if tier == "quick" else 200
         if len(shapes) > cap:
             shapes = rng.sample(shapes, cap)
         for shape in shapes:
@@ -673,6 +970,47 @@ def _evaluator_steps(tier, rng):
                                 continue
                             yield _mk("evaluator", R, 1, rmin, 1, False, None, filt, est, rng.choice(TRANSFORMS),
                                       rng.choice(orders), [_req("F", rng.choice([0, 1]), batch, fault)])
+
+
+def _grad_allfail(tier, rng):
+    """Gradient evaluations in which realizations fall below perturbation_min_success although every function value is fine:
+    realization_min_success = 0 with NaN-tolerant and NaN-intolerant methods (the all-failed test on GRADIENT results),
+    and realization_min_success > 0 (gradients None); gradient-only after a function request, function+gradient, and
+    a gradient-only request at a point without cached function."""
+    n = 260 if tier == "quick" else 5000
+    for _ in range(n):
+        R = rng.choice([1, 2, 2, 3])
+        P = rng.choice([1, 2, 3])
+        pmin = rng.randint(1, P)
+        rmin = rng.choice([0, 0, 0, 1, R])
+
+        def pm_row(kill):
+            ok = rng.randint(0, pmin - 1) if kill else rng.randint(pmin, P)
+            row = [True] * P
+            for j in rng.sample(range(P), ok):
+                row[j] = False
+            return row
+        mode = rng.choice(["all", "all", "all-but-one", "some"])
+        kill = [True] * R
+        if mode == "all-but-one":
+            kill[rng.randrange(R)] = False
+        elif mode == "some":
+            kill = [rng.random() < 0.5 for _ in range(R)]
+        fault = {"fm": [[False] * R], "pm": [pm_row(k) for k in kill]}
+        shape = rng.choice(["F,G", "FG", "F,G,F", "G", "F,F1,G1", "FG,G"])
+        pts = {"F": ("F", 0), "G": ("G", 0), "FG": ("FG", 0), "F1": ("F", 1), "G1": ("G", 1)}
+        script, placed = [], False
+        for tok in shape.split(","):
+            k, p = pts[tok]
+            f = None
+            if k != "F" and not placed:
+                f, placed = fault, True
+            script.append(_req(k, p, 0, f))
+        order = list(range(R))
+        rng.shuffle(order)
+        filt = rng.choice(FILTERS_R.get(R, [None])) if rng.random() < 0.2 else None
+        yield _mk("optimizer", R, P, rmin, pmin, rng.random() < 0.4, rng.choice([None, None, 2, 3]), filt,
+                  "stddev" if rng.random() < 0.15 else "mean", rng.choice(TRANSFORMS), order, script)
 
 
 def _random_fault(rng, kind, batch, R, P):
@@ -754,12 +1092,75 @@ def _nested(tier, rng):
         yield c
 
 
+def _positions(tree_subs, script, path=()):
+    """Pre-order list of (path, level) of every request of a run tree given as (script, subs)."""
+    out = []
+    for i, r in enumerate(script):
+        sub = tree_subs[i]
+        if sub is not None:
+            out += _positions(sub["subs"], sub["script"], path + (i,))
+        out.append(path + (i,))
+    return out
+
+
+def _tree3(tier, rng):
+    """Three plan levels.  A fault (abort, exception, every realization failed, one realization failed) at every request
+    position of the run tree -- in particular at the first evaluation of the innermost and of the middle run, when no tracker
+    holds a result yet -- with thresholds / budgets varied per level."""
+    thorough = tier == "thorough"
+    shapes = [([1], [[1]]), ([1], [[2]]), ([2], [[1, 1]]), ([1, 1], [[1], [1]]), ([2, 1], [[1, 2], [1]]), ([1, 2], [[2], [1, 1]])]
+    kinds = ["abort", "raise", "allfail", "onefail"]
+    for R in (1, 2):
+        for mids, inners in shapes:
+            # root: one request per entry of mids; the mid run of root request i has mids[i] requests; its request j
+            # triggers an innermost run with inners[i][j] requests
+            def build(fault_at, fault):
+                def rq(path, leaf):
+                    kind = rng.choice(["F", "FG"]) if not leaf else rng.choice(["F", "F", "FG", "G"])
+                    batch = rng.choice([0, 0, 2]) if (leaf and kind == "F") else 0
+                    f = None
+                    if path == fault_at:
+                        if fault in ("abort", "raise"):
+                            f = {"exc": fault}
+                        else:
+                            nv = max(1, batch)
+                            row = [True] * R if fault == "allfail" else [True] + [False] * (R - 1)
+                            f = {"fm": [list(row) for _ in range(nv)]}
+                            if kind != "F":
+                                f["pm"] = [[False] for _ in range(R)]
+                    return _req(kind, rng.choice([0, 1]), batch, f)
+                script, subs = [], []
+                for i, nm in enumerate(mids):
+                    script.append(rq((i,), False))
+                    mscript, msubs = [], []
+                    for j in range(nm):
+                        mscript.append(rq((i, j), False))
+                        iscript = [rq((i, j, k), True) for k in range(inners[i][j])]
+                        msubs.append({"rmin": rng.randint(0, R), "maxf": rng.choice([None, None, 1]), "script": iscript,
+                                      "subs": [None] * len(iscript)})
+                    subs.append({"rmin": rng.randint(0, R), "maxf": rng.choice([None, None, 1, 2]), "script": mscript, "subs": msubs})
+                return script, subs
+            script0, subs0 = build(None, None)
+            positions = [None] + _positions(subs0, script0)
+            for pos in positions:
+                for fault in (kinds if pos is not None else [None]):
+                    if not thorough and rng.random() < 0.55:
+                        continue
+                    for _ in range(3 if thorough else 1):
+                        script, subs = build(pos, fault)
+                        order = list(range(R))
+                        rng.shuffle(order)
+                        c = _mk("optimizer", R, 1, rng.randint(0, R), 1, rng.random() < 0.5, rng.choice([None, None, 1, 2]),
+                                None, "mean", "none", order, script)
+                        c["tree"] = subs
+                        yield c
+
+
 def gen_cases(tier, rng):
-    yield from _nested(tier, rng)
-    yield from _budget_sweep(tier, rng)
-    yield from _evaluator_steps(tier, rng)
-    yield from _structured(tier, rng)
-    yield from _random(tier, rng)
+    streams = (_nested, _tree3, _budget_sweep, _evaluator_steps, _grad_allfail, _structured, _random)
+    for stream in streams:
+        for c in stream(tier, rng):
+            yield _dress(c, rng)
 
 
 # ---------------------------------------------------------------------------------------------
@@ -791,49 +1192,88 @@ def _filter_term(f):
 def cfg_term(case):
     est = "Stddev" if case.get("estimator") == "stddev" else "Mean"
     return (f"(Build_cfg {cq.nat(case['R'])} {cq.nat(case['rmin'])} {cq.nat(case['pmin'])} {cq.b(case['allow_nan'])} "
-            f"{cq.opt(case.get('maxf'), cq.nat)} {_filter_term(case.get('filter'))} {est} {cq.nats(case['order'])})")
+            f"{cq.opt(case.get('maxf'), cq.nat)} {_filter_term(case.get('filter'))} {est} {cq.nats(case['order'])} "
+            f"{cq.nats(r for r, w in enumerate(case.get('weights') or []) if w == 0)})")
 
 
 def _res_term(r):
     return f"(Build_res {'RF' if r[0] == 'F' else 'RG'} {cq.b(r[1])} {cq.b(r[2])})"
 
 
+def tree_term(node):
+    items = []
+    for r, sub in zip(node["script"], node["subs"]):
+        items.append(f"({_req_term(node['cfg'], r)}, {'None' if sub is None else '(Some ' + tree_term(sub) + ')'})")
+    return f"(NS {cfg_term(node['cfg'])} {cq.lst(items)})"
+
+
 def coq_case(case, obs):
     out = obs["outcome"]
     o = f"(OExit {cq.z(out[1])})" if out[0] == "exit" else f"(OExc {cq.s(out[1])})"
-    nested = "None"
-    if case.get("nested"):
-        ic = inner_case(case)
-        nested = f"(Some ({cfg_term(ic)}, {cq.lst(cq.lst(_req_term(ic, r) for r in sc) for sc in case['nested']['scripts'])}))"
+    tree, d = "None", 0
+    if case["step"] != "evaluator" and is_nested(case):
+        t = root(case)
+        tree, d = f"(Some {tree_term(t)})", depth(t)
+    ab = [] if case["step"] == "basic" else obs["aborted"]
     return (f"(Build_case {cq.b(case['step'] == 'evaluator')} {cfg_term(case)} "
-            f"{cq.lst(_req_term(case, r) for r in case['script'])} {nested} {o} "
-            f"{cq.lst(_res_term(r) for r in obs['delivered'])} {cq.zs(obs['events'])})")
+            f"{cq.lst(_req_term(case, r) for r in case['script'])} {tree} {cq.nat(d)} {cq.s(_excls(case))} {o} "
+            f"{cq.lst(_res_term(r) for r in obs['delivered'])} {cq.nats(obs['groups'])} {cq.zs(obs['events'])} "
+            f"{cq.nat(obs['calls'])} {cq.bs(ab)})")
 
 
 # ---------------------------------------------------------------------------------------------
 # evidence helpers, shrinking, search
 # ---------------------------------------------------------------------------------------------
 def _has_fault(case):
-    return any(r.get("fault") for r in case["script"])
+    def node_has(n):
+        return any(r.get("fault") for r in n["script"]) or any(node_has(x) for x in n["subs"] if x is not None)
+    if case["step"] == "evaluator":
+        return any(r.get("fault") for r in case["script"])
+    return node_has(root(case))
 
 
 def nontrivial(case, obs):
     return _has_fault(case) or obs["outcome"] == ["exit", EXIT["MAX_FUNCTIONS"]]
 
 
+def _grad_all_failed(case):
+    """The audited region: a gradient result whose realizations all failed through perturbation_min_success only."""
+    if case["step"] == "evaluator" or is_nested(case):
+        return False
+    for r in case["script"]:
+        f = r.get("fault") or {}
+        if r["kind"] != "F" and f.get("pm") and not any(any(x) for x in (f.get("fm") or [[False]])):
+            if all(row.count(False) < case["pmin"] for row in f["pm"]):
+                return True
+    return False
+
+
 def features(case, obs):
     _, info = expected(case)
     out = obs["outcome"]
-    return {"step": case["step"] if not case.get("nested") else "optimizer+nested", "R": case["R"], "P": case["P"], "len": len(case["script"]),
+    nested = is_nested(case)
+    step = case["step"] if not nested else f"optimizer+nested{depth(root(case))}"
+    return {"step": step, "R": case["R"], "P": case["P"], "len": len(case["script"]),
             "filter": (case.get("filter") or ["none"])[0], "estimator": case.get("estimator"), "transform": case["transform"],
             "bounds": bool(case.get("bounds")), "linear": bool(case.get("linear")),
-            "outcome": out[1] if out[0] == "exc" else {1: "TOO_FEW", 2: "MAX_FUNCTIONS", 3: "NESTED_FAILED", 4: "USER_ABORT", 5: "OPT_FINISHED",
-                                                       6: "EVAL_FINISHED"}.get(out[1], out[1]),
-            "decider": info["decider"], "rmin0": case["rmin"] == 0, "maxf": case.get("maxf") is not None}
+            "outcome": "exception" if out[0] == "exc" else {1: "TOO_FEW", 2: "MAX_FUNCTIONS", 3: "NESTED_FAILED", 4: "USER_ABORT",
+                                                           5: "OPT_FINISHED", 6: "EVAL_FINISHED"}.get(out[1], out[1]),
+            "decider": info["decider"], "rmin0": case["rmin"] == 0, "maxf": case.get("maxf") is not None,
+            "nanloc": f"{case.get('nobj', 1)}obj/{case.get('nanloc', 'all')}", "excls": _excls(case) if info["decider"] == "raise" else "-",
+            "weights": ("with-zero" if case.get("weights") and 0 in case["weights"] else
+                        "unequal" if case.get("weights") and len(set(case["weights"])) > 1 else "equal"),
+            "extras": ",".join(k for k in ("metadata", "explicit", "repeat") if case.get(k)) or "-",
+            "grad_all_failed_by_pmin": (f"rmin0={case['rmin'] == 0},allow_nan={case['allow_nan']}" if _grad_all_failed(case) else "-"),
+            "batched_budget": bool(case.get("maxf") is not None and any(r["batch"] > 1 for r in case["script"]))}
 
 
 def shrink(case):
     s = case["script"]
+    if case.get("tree"):
+        t = case["tree"]
+        for k in range(len(s) - 1, 0, -1):
+            yield {**case, "script": s[:k], "tree": t[:k]}
+        return
     if case.get("nested"):
         n = case["nested"]
         for k in range(len(s) - 1, 0, -1):
@@ -842,6 +1282,13 @@ def shrink(case):
             if len(sc) > 1:
                 yield {**case, "nested": {**n, "scripts": n["scripts"][:i] + [sc[:-1]] + n["scripts"][i + 1:]}}
         return
+    for k in ("repeat", "metadata", "explicit", "weights"):
+        if case.get(k):
+            yield {kk: v for kk, v in case.items() if kk != k}
+    if case["step"] == "basic":
+        yield {**case, "step": "optimizer"}
+    if case.get("nobj", 1) == 2 and case.get("nanloc", "all") in ("all", "obj0", "con"):
+        yield {**case, "nobj": 1}
     for k in range(len(s)):
         if len(s) > 1:
             yield {**case, "script": s[:k] + s[k + 1:]}
@@ -864,38 +1311,51 @@ def shrink(case):
 
 def search(rng, case):
     if case is None:
-        yield from itertools.islice(_random("quick", rng), 0, 600)
+        yield from itertools.islice((_dress(c, rng) for c in _random("quick", rng)), 0, 600)
         return
     yield from shrink(case)
-    if case.get("nested"):
-        yield from itertools.islice(_nested("quick", rng), 0, 300)
+    if is_nested(case):
+        yield from itertools.islice(_nested("quick", rng), 0, 200)
+        yield from itertools.islice(_tree3("quick", rng), 0, 200)
         return
     for tr in TRANSFORMS:
         yield {**case, "transform": tr}
     for rmin in range(case["R"] + 1):
         yield {**case, "rmin": rmin}
-    yield from itertools.islice(_random("quick", rng), 0, 300)
+    for loc in NANLOCS:
+        yield {**case, "nobj": 2, "nanloc": loc}
+    yield from itertools.islice((_dress(c, rng) for c in _random("quick", rng)), 0, 300)
 
 
 MANIFEST = {
     "level_text": ("Machine-checked Coq proof about the executable exit-code machine of an optimizer / evaluator step (Model/Step.v: budget "
-                   "check, evaluator call, gradient cache, filter / threshold / estimator too-few decisions, delivery of results, events), for "
-                   "every request script, fault script, threshold, filter, estimator and budget: the outcome is decided by the first request "
-                   "that does not run to completion and each documented code arises exactly in its case (C14_exit_classification, "
-                   "C14_first_stop_observation, C14_evaluator_step), delivered function results never exceed max_functions + (batch - 1) "
-                   "(C14_budget, C14_budget_serial, C14_budget_counted), the results of the failing evaluation and its FINISHED_EVALUATION are "
-                   "delivered before TOO_FEW_REALIZATIONS (C14_results_before_abort), evaluator exceptions propagate and nothing else raises "
-                   "(C14_exceptions_propagate), and the model's codes/events are members of the enums regenerated from the source "
-                   "(C14_codes_documented).  The machine is tied to the code on every run by an in-Coq correspondence over scripted real Plan "
-                   "runs with a fault-injecting evaluator (outcome, delivered results and event list compared exactly)."),
+                   "check, nested optimizations to any depth, evaluator call, gradient cache, filter / threshold / estimator too-few "
+                   "decisions with positive and zero realization weights, delivery of results, events), for every request script, fault "
+                   "script, threshold, filter, estimator and budget: the outcome is decided by the first request that does not run to "
+                   "completion and each documented code arises exactly in its case (C14_exit_classification, "
+                   "C14_first_stop_observation, C14_evaluator_step); why an evaluation has too few realizations is characterised on the "
+                   "failure masks and on the result flags (C14_too_few_function_request, C14_too_few_gradient_request, "
+                   "C14_too_few_by_result_flags); delivered function results never exceed max_functions + (batch - 1) (C14_budget, "
+                   "C14_budget_serial, C14_budget_counted); the results of the failing evaluation and its FINISHED_EVALUATION are "
+                   "delivered before TOO_FEW_REALIZATIONS (C14_results_before_abort); evaluator exceptions propagate and nothing else "
+                   "raises (C14_exceptions_propagate); with nested optimizations the budget is checked first, a nested exception passes "
+                   "through, a nested USER_ABORT wins over NESTED_OPTIMIZER_FAILED (C14_nested_priority, C14_leaf_is_plain_step); the "
+                   "model's codes/events are members of the enums regenerated from the source (C14_codes_documented).  The machine is "
+                   "tied to the code on every run by an in-Coq correspondence over scripted real Plan / BasicOptimizer runs with a "
+                   "fault-injecting evaluator (outcome, delivered results, event list, evaluator calls and Plan.aborted flags of every "
+                   "level compared exactly; the too-few / call-count / budget clauses also evaluated on the observation alone)."),
     "level_note": ("Trusted / modelled, not verified: the optimizer back-end is a script of requests (SciPy back-ends are C07/C08); the user's "
-                   "evaluator is a fault script; realization weights are positive and equal; filters rank by a fixed order given in the case; "
-                   "transforms are exercised by the real code only (the compared facts must not depend on them).  Known finding "
+                   "evaluator is a fault script; realization weights are positive or zero; filters rank by a fixed order given in the "
+                   "case and apply to all objectives and the constraint; transforms, the number of objectives, the place of the NaN in a "
+                   "failed row, metadata and explicit start vectors are exercised by the real code only (the compared facts must not "
+                   "depend on them); nested and BasicOptimizer runs use positive weights, no filters, no transforms.  Known finding "
                    "C14:abort-inside-calculate (results of an evaluation aborted inside calculate are not delivered) is reported as "
-                   "KNOWN-FINDING; the model encodes the property-satisfying behaviour.  Trusted: Coq kernel + VM, translator for the enums, "
-                   "the scripted optimizer plug-in / fault-injecting evaluator / recording observer of harness/props/C14.py.  All theorems "
-                   "print 'Closed under the global context'."),
+                   "KNOWN-FINDING - its signature also requires every other observed fact to be right; the model encodes the "
+                   "property-satisfying behaviour.  Trusted: Coq kernel + VM, translator for the enums, the scripted optimizer plug-in / "
+                   "fault-injecting evaluator / recording observer of harness/props/C14.py.  All theorems print 'Closed under the global "
+                   "context'."),
     "technique": ("Coq proof (induction over request scripts of an executable Gallina state machine; first-stop classification, budget "
-                  "invariant) + in-Coq differential correspondence with scripted real Plan runs under injected faults"),
+                  "invariant, mask-level characterisation of too-few, nested-run priority for arbitrary nested behaviour) + in-Coq "
+                  "differential correspondence with scripted real Plan / BasicOptimizer runs under injected faults"),
     "design_ref": "DESIGN.md section 4, C14",
 }
